@@ -349,6 +349,9 @@ pub fn cases(tier: &str) -> Vec<Value> {
             // histories ending in an advance observe nothing new
             if *h.last().unwrap() < 6 {
                 out.push(json!({"engine":"enet","check":"c16","kind":"hist","events":h}));
+                // the same history against a service with three listener sockets, the source's
+                // queries spread over them: the bound is per SOURCE, however it reaches the server
+                out.push(json!({"engine":"enet","check":"c16","kind":"hist","events":h,"listeners":3}));
             }
         }
         hs = next;
@@ -525,13 +528,13 @@ fn run_hist(case: &Value) -> CaseResult {
     let (b, r) = RateLimiter::params();
     let (b, r) = (b as usize, r as usize);
     let p = (b / r) as u64;
-    let mut rig = match start_rig(vec!["127.0.0.1".into()]) {
+    let nl = case["listeners"].as_u64().unwrap_or(1) as usize;
+    let mut rig = match start_rig(if nl >= 3 { vec!["127.0.0.1".into(), "127.0.0.3".into(), "127.0.0.4".into()] } else { vec!["127.0.0.1".into()] }) {
         Ok(r) => r,
         Err(e) => return CaseResult::machinery(e),
     };
-    let dst = rig.listen_addr(0);
     let mut res = CaseResult::ok("");
-    let mk = |oracle: &str, what: String| Violation::new(oracle, what, case.clone()).sig("part", "live-hist");
+    let mk = |oracle: &str, what: String| Violation::new(oracle, what, case.clone()).sig("part", "live-hist").sig("listeners", if nl > 1 { "several" } else { "one" });
     let mut c = match UdpClient::new("127.0.0.2".parse().unwrap()) {
         Ok(c) => c,
         Err(e) => return CaseResult::machinery(e),
@@ -563,6 +566,7 @@ fn run_hist(case: &Value) -> CaseResult {
             }
             let before = c.rx.len();
             let q = sized_query(qn, &long_name(&format!("h{qn}.example"), len), edns);
+            let dst = rig.listen_addr(if nl > 1 { qn as usize % nl } else { 0 });
             let _ = c.send(dst, &q);
             rig.pump(6);
             rig.settle(|_| false);
